@@ -776,6 +776,8 @@ impl<B: AsRef<[AtomicUsize]>> AtomicBitVec<B> {
     unsafe fn get_unchecked(&self, index: usize, ordering: Ordering) -> bool {
         let word_index = index / BITS;
         let bits = self.bits.as_ref();
+        #[cfg(sux_verif)]
+        crate::verif::sched_point(30);
         let word = bits.get_unchecked(word_index).load(ordering);
         (word >> (index % BITS)) & 1 != 0
     }
@@ -787,9 +789,13 @@ impl<B: AsRef<[AtomicUsize]>> AtomicBitVec<B> {
 
         // For constant values, this should be inlined with no test.
         if value {
+            #[cfg(sux_verif)]
+            crate::verif::sched_point(31);
             bits.get_unchecked(word_index)
                 .fetch_or(1 << bit_index, ordering);
         } else {
+            #[cfg(sux_verif)]
+            crate::verif::sched_point(31);
             bits.get_unchecked(word_index)
                 .fetch_and(!(1 << bit_index), ordering);
         }
@@ -801,6 +807,8 @@ impl<B: AsRef<[AtomicUsize]>> AtomicBitVec<B> {
         let bit_index = index % BITS;
         let bits = self.bits.as_ref();
 
+        #[cfg(sux_verif)]
+        crate::verif::sched_point(32);
         let old_word = if value {
             bits.get_unchecked(word_index)
                 .fetch_or(1 << bit_index, ordering)
